@@ -25,6 +25,8 @@ func propC10() *Property {
 			{ID: "R10.1d", Floor: 1, Text: "Session.input: the comparison between the session cipher's user and the segment cipher's user has no panic on its mismatch edge", Run: r10_1d},
 			{ID: "R10.1e", Floor: 40, Text: "every explicit panic in pkg/protocol, pkg/socks5, pkg/cipher, pkg/replay, pkg/metrics, pkg/congestion, pkg/rng, pkg/common, apis/* is classified", Run: r10_1e},
 			{ID: "R10.4", Floor: 3, Text: "no +,*,<< on uint8/uint16 operands loaded from a byte slice before conversion to a wider integer (length octets must be widened first)", Run: r10_4},
+			{ID: "R10.5", Floor: 1, Text: "narrow-typed arithmetic on a parsed metadata length field is covered by an unconditional parse-time bound", Run: r10_5},
+			{ID: "R10.6", Floor: 10, Text: "reader contract: every Read/ReadFrom implementation returns a count within len(p)", Run: r10_6},
 		},
 	}
 }
@@ -783,6 +785,343 @@ func r10_4(c *RC) {
 				if n <= 12 {
 					c.OK("widen-first@"+fnName(fn), cv.Pos(), "packet byte widened before arithmetic")
 				}
+			}
+		})
+	}
+}
+
+// r10_5: arithmetic carried out in a narrow integer type (uint8/uint16) on a
+// length field of parsed metadata wraps for large field values; the wrapped
+// value then sizes a buffer that is sliced with the constant it was supposed
+// to include (readSessionSegment: make([]byte, payloadLen+16) followed by
+// [:16] ...). Such a site is safe only if every parse-time store of that
+// field is preceded, unconditionally, by the rejection of values that would
+// wrap.
+func r10_5(c *RC) {
+	p := c.P
+	narrowBits := func(t types.Type) int {
+		b, ok := t.Underlying().(*types.Basic)
+		if !ok {
+			return 0
+		}
+		switch b.Kind() {
+		case types.Uint8:
+			return 8
+		case types.Uint16:
+			return 16
+		}
+		return 0
+	}
+	type site struct {
+		fn    *ssa.Function
+		bo    *ssa.BinOp
+		field *types.Var
+		k     int64
+	}
+	var sites []site
+	for _, fn := range p.Funcs("pkg/protocol") {
+		instrs(fn, func(_ *ssa.BasicBlock, _ int, in ssa.Instruction) {
+			bo, ok := in.(*ssa.BinOp)
+			if !ok || narrowBits(bo.Type()) == 0 || bo.Op != token.ADD {
+				return
+			}
+			var fld *types.Var
+			var k int64
+			for _, pair := range [][2]ssa.Value{{bo.X, bo.Y}, {bo.Y, bo.X}} {
+				f := fieldOrigin(pair[0])
+				kk, isK := constInt(pair[1])
+				if f != nil && isK {
+					fld, k = f, kk
+				}
+			}
+			if fld == nil {
+				return
+			}
+			// only fields of the two metadata structs
+			owner := ""
+			for _, tn := range []string{"sessionStruct", "dataAckStruct"} {
+				if g := p.Field(protoPkg, tn, fld.Name()); sameField(g, fld) {
+					owner = tn
+				}
+			}
+			if owner == "" {
+				return
+			}
+			sites = append(sites, site{fn, bo, fld, k})
+		})
+	}
+	if len(sites) == 0 {
+		c.OK("narrow-length-arith", token.NoPos, "no narrow-typed arithmetic on metadata length fields")
+		return
+	}
+	for _, s := range sites {
+		bits := narrowBits(s.bo.Type())
+		max := int64(1)<<bits - 1
+		key := "narrow-length-arith:" + s.field.Name() + "@" + fnName(s.fn)
+		// every store to the field outside composite literals of senders: in Unmarshal
+		var problems []string
+		nstores := 0
+		for _, st := range p.FieldStores(s.field) {
+			store, ok := st.Instr.(*ssa.Store)
+			if !ok || st.Fn.Name() != "Unmarshal" {
+				continue
+			}
+			nstores++
+			bounded := false
+			for _, ce := range controllingEdges(store.Block()) {
+				bo, ok := ce.If.Cond.(*ssa.BinOp)
+				if !ok {
+					continue
+				}
+				lim, isK := constInt(bo.Y)
+				if !isK || bo.X != store.Val {
+					continue
+				}
+				switch {
+				case bo.Op == token.GTR && ce.Idx == 1 && lim+s.k <= max:
+					bounded = true
+				case bo.Op == token.GEQ && ce.Idx == 1 && lim-1+s.k <= max:
+					bounded = true
+				case bo.Op == token.LEQ && ce.Idx == 0 && lim+s.k <= max:
+					bounded = true
+				case bo.Op == token.LSS && ce.Idx == 0 && lim-1+s.k <= max:
+					bounded = true
+				}
+			}
+			if !bounded {
+				problems = append(problems, fnName(st.Fn)+" stores "+s.field.Name()+" without an unconditional upper bound that keeps "+s.field.Name()+"+"+fmtInt(int(s.k))+" within "+s.bo.Type().String())
+			}
+		}
+		if nstores == 0 {
+			problems = append(problems, "no parse-time store found")
+		}
+		if len(problems) == 0 {
+			c.OKH(key, s.bo.Pos(), "%s in %s: every Unmarshal store of the field is preceded by an unconditional bound, the sum cannot wrap", describe(s.bo), s.bo.Type())
+		} else {
+			c.Bad(key, s.bo.Pos(), "%s is computed in %s and wraps for large peer-chosen values: %s — a wrapped size is then sliced with the constant it should include and the event loop panics", describe(s.bo), s.bo.Type(), strings.Join(problems, "; "))
+		}
+	}
+}
+
+// r10_6: the reader contract. Every Read / ReadFrom / ReadFromUDP style
+// method in the product returns a count that cannot exceed len(p): callers
+// (PacketUnderlay.readOneSegment: b = b[:n]) slice their buffer with it and a
+// larger count panics in the event loop.
+func r10_6(c *RC) {
+	p := c.P
+	for _, fn := range p.Funcs("pkg/protocol", "pkg/socks5", "apis", "pkg/common", "pkg/cipher") {
+		switch fn.Name() {
+		case "Read", "ReadFrom", "ReadFromUDP", "ReadMsgUDP":
+		default:
+			continue
+		}
+		if fn.Signature.Recv() == nil || fn.Signature.Params().Len() == 0 || fn.Signature.Results().Len() < 2 {
+			continue
+		}
+		if sl, ok := fn.Signature.Params().At(0).Type().Underlying().(*types.Slice); !ok || sl.Elem().String() != "byte" && sl.Elem().String() != "uint8" {
+			continue
+		}
+		if bt, ok := fn.Signature.Results().At(0).Type().Underlying().(*types.Basic); !ok || bt.Kind() != types.Int {
+			continue
+		}
+		if len(fn.Params) < 2 {
+			continue
+		}
+		buf := fn.Params[1]
+		rootIsBuf := func(v ssa.Value) bool {
+			for i := 0; i < 6; i++ {
+				switch x := v.(type) {
+				case *ssa.Slice:
+					v = x.X
+				case *ssa.UnOp:
+					// spilled parameter
+					if a, ok := x.X.(*ssa.Alloc); ok {
+						sts := allocStores(a)
+						if len(sts) == 1 {
+							v = sts[0]
+							continue
+						}
+					}
+					return false
+				default:
+					return v == ssa.Value(buf)
+				}
+			}
+			return v == ssa.Value(buf)
+		}
+		visiting := map[*ssa.Alloc]bool{}
+		var okVal func(v ssa.Value, at *ssa.BasicBlock, d int) (bool, string)
+		okVal = func(v ssa.Value, at *ssa.BasicBlock, d int) (bool, string) {
+			if d > 14 {
+				return false, "too deep"
+			}
+			switch x := v.(type) {
+			case *ssa.Const:
+				return true, ""
+			case *ssa.Extract:
+				return okVal(x.Tuple, at, d+1)
+			case *ssa.Call:
+				if b, ok := x.Call.Value.(*ssa.Builtin); ok {
+					switch b.Name() {
+					case "copy":
+						if rootIsBuf(x.Call.Args[0]) {
+							return true, ""
+						}
+						return false, "copy into another buffer"
+					case "len":
+						if rootIsBuf(x.Call.Args[0]) {
+							return true, ""
+						}
+						// len(other): needs a dominating comparison with len(p)
+						for _, ce := range controllingEdges(at) {
+							bo, ok := ce.If.Cond.(*ssa.BinOp)
+							if !ok {
+								continue
+							}
+							isLenBuf := func(w ssa.Value) bool {
+								lc, ok := w.(*ssa.Call)
+								if !ok {
+									return false
+								}
+								lb, ok := lc.Call.Value.(*ssa.Builtin)
+								return ok && lb.Name() == "len" && rootIsBuf(lc.Call.Args[0])
+							}
+							sameLen := func(w ssa.Value) bool {
+								lc, ok := w.(*ssa.Call)
+								if !ok {
+									return false
+								}
+								lb, ok := lc.Call.Value.(*ssa.Builtin)
+								return ok && lb.Name() == "len" && lc.Call.Args[0] == x.Call.Args[0]
+							}
+							switch {
+							case bo.Op == token.GTR && sameLen(bo.X) && isLenBuf(bo.Y) && ce.Idx == 1,
+								bo.Op == token.LEQ && sameLen(bo.X) && isLenBuf(bo.Y) && ce.Idx == 0,
+								bo.Op == token.LSS && isLenBuf(bo.X) && sameLen(bo.Y) && ce.Idx == 1,
+								bo.Op == token.GEQ && isLenBuf(bo.X) && sameLen(bo.Y) && ce.Idx == 0:
+								return true, ""
+							}
+						}
+						return false, "len(" + describe(x.Call.Args[0]) + ") is returned without having been compared with len(p)"
+					case "min":
+						for _, a := range x.Call.Args {
+							if ok, _ := okVal(a, at, d+1); ok {
+								return true, ""
+							}
+						}
+					}
+					return false, "builtin " + b.Name()
+				}
+				// delegation: the callee received p (or a part of it)
+				for _, a := range x.Call.Args {
+					if rootIsBuf(a) {
+						return true, ""
+					}
+				}
+				if x.Call.IsInvoke() && rootIsBuf(x.Call.Value) {
+					return true, ""
+				}
+				return false, "result of " + calleeName(x) + ", which did not receive p"
+			case *ssa.Phi:
+				for _, e := range x.Edges {
+					if e == ssa.Value(x) {
+						continue
+					}
+					if ok, why := okVal(e, at, d+1); !ok {
+						return false, why
+					}
+				}
+				return true, ""
+			case *ssa.BinOp:
+				if x.Op == token.ADD || x.Op == token.SUB {
+					ok1, w1 := okVal(x.X, at, d+1)
+					ok2, w2 := okVal(x.Y, at, d+1)
+					if ok1 && ok2 {
+						return true, ""
+					}
+					return false, w1 + w2
+				}
+				return false, "arithmetic " + x.Op.String()
+			case *ssa.UnOp:
+				if a, ok := x.X.(*ssa.Alloc); ok {
+					if visiting[a] {
+						return true, "" // the accumulator itself (n += copied)
+					}
+					visiting[a] = true
+					defer delete(visiting, a)
+					for _, s := range allocStores(a) {
+						if ok, why := okVal(s, at, d+1); !ok {
+							return false, why
+						}
+					}
+					return true, ""
+				}
+				return false, "loaded from " + describe(x.X)
+			case *ssa.Convert:
+				return okVal(x.X, at, d+1)
+			}
+			return false, describe(v)
+		}
+		// errNonNil: the error result of this return cannot be nil
+		errNonNil := func(r *ssa.Return, b *ssa.BasicBlock) bool {
+			ev := retVal(r, len(r.Results)-1)
+			if isNilConst(ev) {
+				return false
+			}
+			all := true
+			for _, l := range Leaves(ev, nil) {
+				switch y := l.(type) {
+				case *ssa.Call:
+					id := calleeID(y)
+					if id == "fmt.Errorf" || id == "errors.New" || strings.HasSuffix(id, "WrapErrorWithType") {
+						continue
+					}
+				case *ssa.UnOp:
+					if _, isG := y.X.(*ssa.Global); isG {
+						continue
+					}
+				case *ssa.MakeInterface:
+					continue
+				}
+				// a value tested non-nil on the way here
+				tested := false
+				for _, ce := range controllingEdges(b) {
+					if bo, ok := ce.If.Cond.(*ssa.BinOp); ok && isNilConst(bo.Y) {
+						same := bo.X == l
+						if !same {
+							for _, l2 := range Leaves(bo.X, nil) {
+								if l2 == l {
+									same = true
+								}
+							}
+						}
+						if same && ((bo.Op == token.NEQ && ce.Idx == 0) || (bo.Op == token.EQL && ce.Idx == 1)) {
+							tested = true
+						}
+					}
+				}
+				if !tested {
+					all = false
+				}
+			}
+			return all
+		}
+		n := 0
+		instrs(fn, func(b *ssa.BasicBlock, _ int, in ssa.Instruction) {
+			r, ok := in.(*ssa.Return)
+			if !ok || len(r.Results) < 2 {
+				return
+			}
+			n++
+			key := "count-within-buffer@" + fnName(fn)
+			if errNonNil(r, b) {
+				c.OK(key, r.Pos(), "error return (the count is not used)")
+				return
+			}
+			if ok, why := okVal(retVal(r, 0), b, 0); ok {
+				c.OK(key, r.Pos(), "the count returned is a constant, a copy into p, a delegated read into p, or a length compared with len(p)")
+			} else {
+				c.Bad(key, r.Pos(), "%s can return a count larger than len(p): %s; the caller slices its buffer with that count and panics", fnName(fn), why)
 			}
 		})
 	}
